@@ -42,12 +42,18 @@ func runReadFromSim(c *Ctx, ruleAlien, ruleMissing string, ruleSrcFailOpt ...str
 		return
 	}
 	c.Fn(FuncName(rf))
-	for _, declared := range []int64{2, 3, -2} {
+	for _, declared := range []int64{2, 3, -2, -3} {
 		rule := ruleAlien
 		if declared == 3 {
 			rule = ruleMissing
 		}
 		srcFail := declared < 0
+		failWith := ""
+		if declared == -3 {
+			// a source may report its own breakage with io.ErrUnexpectedEOF (cut-off compressed streams, short HTTP
+			// bodies): still a failure of the source, not the end of the file
+			failWith = "io.ErrUnexpectedEOF"
+		}
 		if srcFail {
 			rule, declared = ruleSrcFail, 2
 		}
@@ -57,6 +63,7 @@ func runReadFromSim(c *Ctx, ruleAlien, ruleMissing string, ruleSrcFailOpt ...str
 		ex := NewExec(p)
 		ex.Unroll = 12
 		ex.ReaderMayFail = srcFail
+		ex.ReaderFailSentinel = failWith
 		st := ex.NewState()
 		k8 := func(v int64) Val { return mkConst(v, 8, false) }
 		str := func(s string) []Val {
@@ -98,6 +105,9 @@ func runReadFromSim(c *Ctx, ruleAlien, ruleMissing string, ruleSrcFailOpt ...str
 		key := fmt.Sprintf("whole-file read simulation (header declares %d tracks, file holds 2)", declared)
 		if srcFail {
 			key = "whole-file read simulation with a failing source"
+			if failWith != "" {
+				key += " (the source reports " + failWith + ")"
+			}
 		}
 		if ex.Budget || len(outs) == 0 {
 			c.Unk(rule, key, p.Pos(rf.Pos()), fmt.Sprintf("abstract interpretation did not complete (budget=%v, stats=%+v)", ex.Budget, ex.Stats))
@@ -137,7 +147,7 @@ func runReadFromSim(c *Ctx, ruleAlien, ruleMissing string, ruleSrcFailOpt ...str
 					okF, whyF = false, "the source failed at the Read issued from "+failedAt+" (a non-EOF error, nothing delivered, sticky) and ReadFrom returns "+valString(o.Ret[1])+": a silently shortened file ["+outcomeWitness(o)+"]"
 				}
 			}
-			c.Check(okF && nF > 0 && nOK > 0, rule, "whole-file read simulation: a source failure at any Read ends in an error", p.Pos(rf.Pos()), fmt.Sprintf("%d outcomes in which some Read of the source failed: all return a definite error; %d outcomes without failure return nil", nF, nOK), whyF)
+			c.Check(okF && nF > 0 && nOK > 0, rule, key+": a source failure at any Read ends in an error", p.Pos(rf.Pos()), fmt.Sprintf("%d outcomes in which some Read of the source failed: all return a definite error; %d outcomes without failure return nil", nF, nOK), whyF)
 			continue
 		}
 		ok, why := true, ""
